@@ -240,6 +240,28 @@ pub fn run_c15(ctx: &mut Ctx) {
             Ok(u) => ctx.violation("lookup:non-id-found", &format!("get_unit_or_default({s:?}) returns {} although no unit lists that identifier", u.name()), json!({"string": s})),
             Err(p) => ctx.violation(&format!("lookup:or-default:{}", panic_sig(&p)), &p.msg, json!({"string": s})),
         }
+        // ... and neither decoder resolves it to a unit through some other route
+        let doc = json!({"_kind": "number", "val": 1.5, "unit": s}).to_string();
+        let ztext = format!("1.5{s}");
+        // (Zinc only when the whole string is made of unit characters: otherwise the unit token ends earlier and the rest
+        // of the text is not part of the number)
+        // ... and a leading '_' belongs to the digits ("1.5_" is 1.5)
+        let zinc_applicable = is_zinc_unit_text(&s) && !s.starts_with('_');
+        for (how, r) in [("Hayson", catch(|| serde_json::from_str::<Value>(&doc).ok())), ("Zinc", catch(|| if zinc_applicable { from_str(&ztext).ok() } else { None }))] {
+            match r {
+                Ok(Some(v)) => {
+                    if let Some(n) = num_of(&v) {
+                        if let Some(u) = n.unit {
+                            if !u.ids.is_empty() && !u.ids.iter().any(|id| id == &s) && n.value == 1.5 {
+                                ctx.violation("decode:non-id-resolved", &format!("{how} decodes 1.5 with unit text {s:?} to the unit {} although that unit does not list it", u.name()), json!({"string": s}));
+                            }
+                        }
+                    }
+                }
+                Ok(None) => {}
+                Err(p) => ctx.violation(&format!("decode:{}", panic_sig(&p)), &p.msg, json!({"string": s})),
+            }
+        }
         if ctx.wants_sample("non-id") && i > 5 {
             ctx.sample("non-id", json!(s));
         }
@@ -249,7 +271,17 @@ pub fn run_c15(ctx: &mut Ctx) {
 fn near_miss(rng: &mut Rng, ids: &[&str]) -> String {
     let base = rng.pick(ids).to_string();
     let chars: Vec<char> = base.chars().collect();
-    match rng.below(9) {
+    match rng.below(13) {
+        // look-alike characters: micro sign / Greek mu, ohm sign / Greek omega, degree / ring / masculine ordinal, superscripts
+        9 => {
+            const TWINS: [(char, char); 10] = [('\u{b5}', '\u{3bc}'), ('\u{3bc}', '\u{b5}'), ('\u{2126}', '\u{3a9}'), ('\u{3a9}', '\u{2126}'), ('\u{b0}', '\u{ba}'), ('\u{b0}', '\u{2da}'), ('\u{b2}', '2'), ('\u{b3}', '3'), ('/', '\u{2215}'), ('_', ' ')];
+            let (from, to) = *rng.pick(&TWINS);
+            if base.contains(from) { base.replace(from, &to.to_string()) } else { format!("{base}{to}") }
+        }
+        // two identifiers combined the way a quotient or product might be spelled
+        10 => format!("{}/{}", rng.pick(ids), rng.pick(ids)),
+        11 => format!("{}_per_{}", rng.pick(ids), rng.pick(ids)),
+        12 => format!("{}*{}", rng.pick(ids), rng.pick(ids)),
         0 => crate::gen::gen_string(rng),
         1 => base.to_uppercase(),
         2 => base.to_lowercase(),
@@ -429,10 +461,86 @@ pub fn run_c16(ctx: &mut Ctx) {
                     }
                 }
             }
+            // magnitudes that are not numbers in the ordinary sense: success or failure must still depend on the dimensions only
+            for x in [f64::NAN, f64::INFINITY, f64::NEG_INFINITY, 0.0, -0.0, f64::MAX, f64::MIN_POSITIVE] {
+                match catch(|| a.convert_to(x, b)) {
+                    Err(p) => ctx.violation(&format!("convert:{}", panic_sig(&p)), &p.msg, json!({"from": a.name(), "to": b.name(), "x": format!("{x}")})),
+                    Ok(Ok(_)) if !same_dim => {
+                        ctx.violation("convert:succeeds-across-dimensions", &format!("{x} {} -> {} converts although their dimensions differ", a.name(), b.name()), json!({"from": a.name(), "to": b.name()}));
+                        break;
+                    }
+                    Ok(Err(_)) if same_dim => {
+                        ctx.violation("convert:fails-within-dimension", &format!("{x} {} -> {} fails although both measure the same dimension", a.name(), b.name()), json!({"from": a.name(), "to": b.name()}));
+                        break;
+                    }
+                    _ => {}
+                }
+            }
+            // units with different offsets: a quantity whose image lies within a millionth of the target's zero point
+            if same_dim && a.offset != b.offset && a.dimensions.is_some() {
+                for eps in [7e-7, -3e-7, 9e-5] {
+                    let x = (b.offset - a.offset) / a.scale + eps * b.scale / a.scale;
+                    let expect = (x * a.scale + a.offset - b.offset) / b.scale;
+                    let tol = 1e-9 * (x * a.scale).abs().max(a.offset.abs()).max(b.offset.abs()) / b.scale.abs();
+                    match catch(|| a.convert_to(x, b)) {
+                        Ok(Ok(y)) if (y - expect).abs() <= tol => {}
+                        Ok(Ok(y)) => ctx.violation("convert:wrong-value-near-zero", &format!("{x} {} -> {} gives {y}, the physical conversion is {expect} (tolerance {tol})", a.name(), b.name()), json!({"from": a.name(), "to": b.name()})),
+                        Ok(Err(e)) => ctx.violation("convert:fails-within-dimension", &format!("{x} {} -> {} fails: {e}", a.name(), b.name()), json!({})),
+                        Err(p) => ctx.violation(&format!("convert:{}", panic_sig(&p)), &p.msg, json!({})),
+                    }
+                    ctx.stratum("convert:near-target-zero");
+                }
+            }
             // unit algebra
             let (mo, dv) = check_algebra(ctx, a, b, &known, "");
             muls_ok += mo;
             divs_ok += dv;
+        }
+    }
+    // the unit algebra from eight threads at once (a memo or "last query" slot shared between callers shows up here)
+    if ctx.begin("algebra-threads", 0) {
+        let barrier = std::sync::Barrier::new(8);
+        let seed = crate::prng::mix(&[ctx.seed, ctx.shard, 0xA16]);
+        let known = &known;
+        let bad: Vec<String> = std::thread::scope(|s| {
+            let hs: Vec<_> = (0..8u64)
+                .map(|t| {
+                    let barrier = &barrier;
+                    s.spawn(move || {
+                        let mut rng = Rng::new(crate::prng::mix(&[seed, t]));
+                        let mut bad = Vec::new();
+                        barrier.wait();
+                        for _ in 0..20_000 {
+                            let (a, b) = (units[rng.below(n)], units[rng.below(n)]);
+                            for is_mul in [true, false] {
+                                let r = catch(|| if is_mul { a * b } else { a / b });
+                                match r {
+                                    Err(p) => bad.push(format!("{} {} {} panics: {}", a.name(), if is_mul { '*' } else { '/' }, b.name(), p.msg)),
+                                    Ok(Err(_)) => {}
+                                    Ok(Ok(u)) => match (a.dimensions, b.dimensions, u.dimensions) {
+                                        (Some(da), Some(db), Some(du)) if known.contains(&(u as *const Unit as usize)) => {
+                                            let (va, vb, vu) = (dim_vec(&da), dim_vec(&db), dim_vec(&du));
+                                            let dims_ok = (0..7).all(|k| vu[k] == if is_mul { va[k] + vb[k] } else { va[k] - vb[k] });
+                                            let want_scale = if is_mul { a.scale * b.scale } else { a.scale / b.scale };
+                                            if !dims_ok || !rel_close(u.scale, want_scale, 1.5e-3) {
+                                                bad.push(format!("{} {} {} = {} (dimension ok: {dims_ok}, scale {} vs {want_scale})", a.name(), if is_mul { '*' } else { '/' }, b.name(), u.name(), u.scale));
+                                            }
+                                        }
+                                        _ => bad.push(format!("{} {} {} = {}: not a dimensioned database unit", a.name(), if is_mul { '*' } else { '/' }, b.name(), u.name())),
+                                    },
+                                }
+                            }
+                        }
+                        bad
+                    })
+                })
+                .collect();
+            hs.into_iter().flat_map(|h| h.join().unwrap_or_default()).collect()
+        });
+        ctx.eval("algebra-threads", seed, true);
+        ctx.evaluations += 8 * 40_000;
+        for b in bad.iter().take(3) {
+            ctx.violation("unit-algebra:wrong-under-concurrency", &format!("with 8 threads multiplying and dividing units at once: {b}"), json!({"failures": bad.len()}));
         }
     }
     ctx.note_add("convertible_ordered_pairs", convertible);
